@@ -462,7 +462,9 @@ def impl(c):
 # ----------------------------------------------------------------------------
 # comparison
 # ----------------------------------------------------------------------------
-MODEL_FIELDS = ("items", "terms", "len", "is_polynomial", "order", "values", "getitem",
+# the observables the property names; the creation order (`terms(sort=False)`, "items") is reported in the
+# histograms only: the property is silent about it, so a refactor that changes it must not raise an alarm
+MODEL_FIELDS = ("terms", "len", "is_polynomial", "order", "values", "getitem",
                 "call_auto", "call_horner", "call_direct")
 
 
@@ -583,6 +585,8 @@ def compare(c, io, drv):
         def same(iv, mv):
             if isinstance(iv, dict) and "err" in iv or isinstance(mv, dict) and "err" in mv:
                 return iv == mv
+            if isinstance(iv, dict):
+                iv, mv = dict(iv, items=None), dict(mv, items=None)     # creation order: not compared
             return _norm(iv) == _norm(mv)
         mf = drv.get("model_fixed", m)
         for part in ("func", "poly"):
@@ -752,8 +756,9 @@ def shrink(c):
                 yield dict(c, v=2)
     elif e == "lagrange":
         ps = c["pairs"]
-        for i in range(len(ps)):
-            yield dict(c, pairs=ps[:i] + ps[i + 1:])
+        if len(ps) > 2:       # never shrink into the single-point case: that is a different (known) failure
+            for i in range(len(ps)):
+                yield dict(c, pairs=ps[:i] + ps[i + 1:])
         if c.get("ks"):
             yield dict(c, ks=c["ks"][:-1])
         for i, (a, b) in enumerate(ps):
